@@ -623,6 +623,13 @@ func main() {
 		path := filepath.Join(verifDir, "replays", name)
 		b, _ := json.MarshalIndent(rf, "", " ")
 		os.WriteFile(path, b, 0o644)
+		// schedule-level minimisation (records the scheduling choices of the failing run and
+		// sets as many as possible to "keep running the current task"); rewrites the file
+		if len(o.Scenario) > 0 {
+			mc := exec.Command(bin, "-prop", prop, "-minsched", path)
+			mc.Env = append(os.Environ(), "GOMAXPROCS=2")
+			mc.Run()
+		}
 		// fresh-process replay must reproduce the signature
 		ro, err := replayOnce(bin, prop, path)
 		if err != nil || !hasSig(ro, sig) {
@@ -630,9 +637,14 @@ func main() {
 			fmt.Fprintf(os.Stderr, "vcheck: violation %s (seed %d) did not reproduce on replay: %v\n", sig, o.Seed, err)
 			continue
 		}
-		rf["trace"] = ro.History
-		b, _ = json.MarshalIndent(rf, "", " ")
-		os.WriteFile(path, b, 0o644)
+		if cur, err := os.ReadFile(path); err == nil {
+			var m map[string]any
+			if json.Unmarshal(cur, &m) == nil {
+				m["trace"] = ro.History
+				b, _ = json.MarshalIndent(m, "", " ")
+				os.WriteFile(path, b, 0o644)
+			}
+		}
 		fmt.Printf("violation: %s\n  %s\n  runs with this signature: %d, first seed %d\n", sig, detail, a.sigs[sig], o.Seed)
 		violLines = append(violLines, fmt.Sprintf("VIOLATION property=%s replay=%s", prop, path))
 	}
